@@ -410,25 +410,41 @@ func genRetryState() (string, error) {
 	if err != nil {
 		return "", fmt.Errorf("onUpstreamHeaders retry condition: %v", err)
 	}
-	// setupRetry: every return is a boolean literal, all the same
+	// setupRetry: the function ends in `return true`; an earlier `return false` is only accepted directly inside an `if` on the
+	// globalTimeoutExpired flag (the global timeout already fired: in the model the `.global` label has ended the exchange).
 	fd = findFunc(df, "downStream", "setupRetry")
-	if fd == nil {
+	if fd == nil || len(fd.Body.List) == 0 {
 		return "", fmt.Errorf("setupRetry not found")
 	}
 	sr := ""
+	if r, ok := fd.Body.List[len(fd.Body.List)-1].(*ast.ReturnStmt); ok && len(r.Results) == 1 && exprKey(r.Results[0]) == "true" {
+		sr = "true"
+	}
 	bad := false
-	ast.Inspect(fd.Body, func(n ast.Node) bool {
-		if r, ok := n.(*ast.ReturnStmt); ok {
-			if len(r.Results) != 1 || (exprKey(r.Results[0]) != "true" && exprKey(r.Results[0]) != "false") || (sr != "" && sr != exprKey(r.Results[0])) {
-				bad = true
-			} else {
-				sr = exprKey(r.Results[0])
-			}
+	for _, st := range fd.Body.List[:len(fd.Body.List)-1] {
+		if !containsReturn(st) {
+			continue
 		}
-		return true
-	})
+		is, ok := st.(*ast.IfStmt)
+		mentions := false
+		if ok {
+			ast.Inspect(is.Cond, func(n ast.Node) bool {
+				if se, ok := n.(*ast.SelectorExpr); ok && se.Sel.Name == "globalTimeoutExpired" {
+					mentions = true
+				}
+				return true
+			})
+		}
+		if !ok || !mentions || is.Else != nil || len(is.Body.List) != 1 {
+			bad = true
+			continue
+		}
+		if r, ok := is.Body.List[0].(*ast.ReturnStmt); !ok || len(r.Results) != 1 || exprKey(r.Results[0]) != "false" {
+			bad = true
+		}
+	}
 	if bad || sr == "" {
-		return "", fmt.Errorf("setupRetry: result is not a single boolean literal")
+		return "", fmt.Errorf("setupRetry: does not end in `return true` or refuses for a reason outside the model")
 	}
 	// OnReceive: `for i := 0; i < N; i++` around s.receive
 	fd = findFunc(df, "downStream", "OnReceive")
@@ -476,7 +492,7 @@ func genRetryState() (string, error) {
 	if loopN == "" {
 		return "", fmt.Errorf("OnReceive: bounded worker loop around s.receive not found")
 	}
-	s += "/-- `downStream.setupRetry` always reports success -/\ndef setupRetryResult : Bool := " + sr + "\n"
+	s += "/-- `downStream.setupRetry` reports success (unless the global timeout has already expired, which ends the exchange in the model) -/\ndef setupRetryResult : Bool := " + sr + "\n"
 	s += "/-- `onUpstreamReset`: `if <guard> { retryCheck := retryState.retry(ctx, nil, reason); if <cond> { …; return } … }` -/\n"
 	s += "def resetGuard (reason : String) (responseStarted hasRetryState : Bool) : Bool := " + g + "\n"
 	s += "def resetRetryCond (retryCheck : Int) : Bool := " + rc + "\n"
@@ -763,6 +779,35 @@ func genRouteAction() (string, error) {
 	if !ok {
 		return "", fmt.Errorf("HeaderOriginalPath not found")
 	}
+	// NewRouteRuleImplBase: the condition under which a configured regex_rewrite is stored at all
+	fd = findFunc(bf, "", "NewRouteRuleImplBase")
+	if fd == nil {
+		return "", fmt.Errorf("NewRouteRuleImplBase not found")
+	}
+	var stored ast.Expr
+	ast.Inspect(fd.Body, func(n ast.Node) bool {
+		is, ok := n.(*ast.IfStmt)
+		if !ok || is.Init != nil {
+			return true
+		}
+		for _, st := range is.Body.List {
+			if as, ok := st.(*ast.AssignStmt); ok && exprKey(as.Lhs[0]) == "base.regexRewrite" {
+				stored = is.Cond
+			}
+		}
+		return true
+	})
+	if stored == nil {
+		return "", fmt.Errorf("NewRouteRuleImplBase: regex_rewrite storing condition not found")
+	}
+	env = &Env{Names: map[string]string{"route.Route.RegexRewrite": "hasRegexRewrite", "nil": "false",
+		"len(route.Route.RegexRewrite.Pattern.Regex)": "(regex.length : Int)", "len(route.Route.PrefixRewrite)": "(prefixRewrite.length : Int)"}, Calls: map[string]string{}}
+	stc, err := env.expr(stored)
+	if err != nil {
+		return "", fmt.Errorf("regex_rewrite storing condition: %v", err)
+	}
+	s += "/-- `NewRouteRuleImplBase`: a configured regex_rewrite is kept (and compiled) only when this holds -/\n"
+	s += "def regexStored (hasRegexRewrite : Bool) (regex prefixRewrite : String) : Bool := " + stc + "\n"
 	s += "def headerOriginalPath : String := " + hop.ExactString() + "\n"
 	s += "/-- `finalizePathHeader` returns at once (no rewrite at all) when this holds -/\n"
 	s += "def rewriteDisabled (prefixRewrite regex : String) : Bool := " + gc + "\n"
